@@ -1,7 +1,16 @@
-(* Every function of the searcher model preserves the invariant of Inv.v. *)
+(* Every function of the searcher model preserves the invariant of Inv.v - part 2 (part 1:
+   Searcher/ProofsCore.v): the forest database, _symmetry_expand, try_verify, add_rule,
+   _inferral_expand, _expand, the packet loop, __init__, and the whole run.
+
+   Parameters: the switch C of the table contracts (Searcher/Contracts.v; `pack` = the strategies the
+   queue may hand out) and the ghost predicate GP of Inv.v.  GP is only looked at where C holds; the
+   three hypotheses about it say that it survives the growth of a truthful class database (G_frame),
+   ignores the events that are none of its business (G_skip) and what the forest databases record
+   (G_forest), and takes ONE step over ruledb.add of the pruning databases (G_base).  GP := Gtriv
+   discharges all of them (Section Plain at the end: the plain invariant, as used by C04/C17). *)
 From Coq Require Import ZArith List Bool Lia.
 From CSS Require Import Base.PyList ClassDB.Model ClassDB.Proofs Gen.Prelude Gen.ReverseShifts
-  Searcher.Model Searcher.Inv.
+  Searcher.Model Searcher.Inv Searcher.Contracts Searcher.ProofsCore.
 Import ListNotations.
 Open Scope Z_scope.
 
@@ -9,365 +18,73 @@ Section Proofs.
 Variable T : table.
 Variable mode : Z.
 Variable C : Prop.
+Variable pack : list Z.
+Variable GP : @db Z -> list (Z * list Z) -> list (Z * list Z) -> list event -> Prop.
 
 Notation oracle := (oracle T).
 Notation entry_of := (entry_of T).
 Notation rules_from_strategy := (rules_from_strategy T).
 Notation rule_children := (rule_children T).
 Notation lbl := (label_of Z.eqb (fun c : Z => c)).
-Notation Inv := (Inv T C).
-Notation leq := (leq T C).
+Notation Inv := (Inv T C GP).
+Notation leq := (leq T C GP).
 Notation ev_ok := (ev_ok T C).
 Notation kids_sp := (kids_sp T).
 Notation pe_of := (pe_of T).
+Notation rule_good := (rule_good T).
+Notation labelled := (labelled T).
+Notation kids_nonempty := (kids_nonempty T C).
+Notation ar_spec := (ar_spec T C GP).
+Notation RK := (ProofsCore.RK).
+Notation kids_lbl := (ProofsCore.kids_lbl).
+
+Hypothesis G_frame : C -> forall d d' r e tr, (* in-section *)
+  @WF Z d -> @WF Z d' -> extends d d' -> EmptyOK (fun k : Z => k) oracle d -> EmptyOK (fun k : Z => k) oracle d' ->
+  GP d r e tr -> GP d' r e tr.
+Hypothesis G_skip : C -> forall ev d r e tr, neutral ev = true -> GP d r e tr -> GP d r e (ev :: tr). (* in-section *)
+(* the forest databases: the ghost predicate does not follow them *)
+Hypothesis G_forest : C -> (mode =? 0) = false -> forall start ends sid parent d r e tr, (* in-section *)
+  GP d r e tr -> GP d r e (EvAdd start ends sid parent :: tr).
+(* ruledb.add of the pruning databases (the call is logged, then RuleDBBase.add) is one step *)
+Hypothesis G_base : C -> (mode =? 0) = true -> forall s sym start ends r, (* in-section *)
+  Inv s -> rule_good r -> (running s = true -> labelled (cdb s) sym start ends r) ->
+  Gs GP s -> Gs GP (base_add T (emit (EvAdd start ends (r_sid r) (r_parent r)) s) start ends r).
+
+(* ... and holds of the fresh searcher *)
+Hypothesis G_init : C -> GP init [] [] []. (* in-section *)
 
 (* the table contracts (only used where C holds) *)
-Hypothesis pe_contract : C -> forall sid c e, (* in-section *)
-  entry_of sid c = Some e -> pe_of sid = false -> forall k, In k (e_children e) -> oracle k = false.
-Hypothesis sym_contract : C -> forall sid c r c0 rest, (* in-section *)
-  In sid (t_sym T) -> In r (rules_from_strategy sid c) -> rule_children r = Some (c0 :: rest) ->
-  oracle c0 = oracle c.
+Hypothesis pe_contract : C -> Contracts.pe_contract T pack. (* in-section *)
+Hypothesis sym_contract : C -> Contracts.sym_contract T. (* in-section *)
 
-(* ---------------------------------------------------------- rule facts *)
-(* state-independent facts about a rule object the model works with *)
-Definition rule_good (r : rule) : Prop :=
-  (r_kind r = REmpty /\ r_sid r = -1 /\ oracle (r_parent r) = true) \/
-  (r_kind r <> REmpty /\ (exists sid0 c0, In r (rules_from_strategy sid0 c0)) /\
-   forall cs, rule_children r = Some cs -> cs <> [r_parent r]).
+Notation RL_leq := (Inv.RL_leq T C GP).
+Notation RLs_leq := (Inv.RLs_leq T C GP).
+Notation leq_inv := (Inv.leq_inv T C GP).
+Notation get_labels_ok := (Inv.get_labels_ok T C GP G_frame).
+Notation get_label_c_ok := (Inv.get_label_c_ok T C GP G_frame).
+Notation get_class_l_ok := (Inv.get_class_l_ok T C GP G_frame).
+Notation is_empty_cl_ok := (Inv.is_empty_cl_ok T C GP G_frame).
+Notation pop_answer_ok := (Inv.pop_answer_ok T C GP).
+Notation set_empty_ev_ok := (Inv.set_empty_ev_ok T C GP G_frame G_skip).
+Notation emit_neutral_ok := (Inv.emit_neutral_ok T C GP G_skip).
+Notation RK_leq := (ProofsCore.RK_leq T C GP).
+Notation labelled_leq := (ProofsCore.labelled_leq T C GP).
+Notation labelled_kids := (ProofsCore.labelled_kids T).
+Notation label_rule_ok := (ProofsCore.label_rule_ok T C GP G_frame).
+Notation for_rules_ok := (ProofsCore.for_rules_ok T C GP G_frame).
+Notation expand_with_ok := (ProofsCore.expand_with_ok T C GP G_frame).
+Notation emits_ok := (ProofsCore.emits_ok T C GP G_skip).
+Notation rule_good_of_strategy := (ProofsCore.rule_good_of_strategy T).
+Notation kids_sp_empty := (ProofsCore.kids_sp_empty T).
+Notation kids_sp_rule := (ProofsCore.kids_sp_rule T).
+Notation r_pe_of := (ProofsCore.r_pe_of T).
 
-Definition kids_lbl (d : @db Z) (kids : list (Z * Z)) : Prop :=
-  Forall (fun cl => lbl d (fst cl) = Some (snd cl)) kids.
-Definition RK (s : st) (kids : list (Z * Z)) : Prop := running s = true -> kids_lbl (cdb s) kids.
-
-(* the labels handed to ruledb.add: those of all children (sym = false), or - from
-   _symmetry_expand - of the first child only (sym = true) *)
-Definition labelled0 (d : @db Z) (sym : bool) (start : Z) (ends : list Z) (r : rule) : Prop :=
-  lbl d (r_parent r) = Some start /\
-  exists cs, rule_children r = Some cs /\
-    labels_of d (firstn (length ends) cs) ends /\
-    (if sym then length ends = 1%nat /\ cs <> [] /\ sym_yielded T (r_sid r) (r_parent r)
-     else length ends = length cs).
-(* ... and where the rule object came from: a strategy applied to a class the database knows *)
-Definition prov (d : @db Z) (r : rule) : Prop :=
-  r_kind r = REmpty \/ exists sid0 c0 l0, In r (rules_from_strategy sid0 c0) /\ lbl d c0 = Some l0.
-Definition labelled (d : @db Z) (sym : bool) (start : Z) (ends : list Z) (r : rule) : Prop :=
-  labelled0 d sym start ends r /\ prov d r.
-
-Definition ar_spec (ar : st -> Z -> list Z -> rule -> st) : Prop :=
-  forall s start ends r, Inv s -> rule_good r ->
-    (running s = true -> labelled (cdb s) false start ends r) -> leq s (ar s start ends r).
-
-Lemma RK_leq s s' kids : Inv s -> leq s s' -> RK s kids -> RK s' kids.
+(* the strategies whose rules go through add_rule: those the queue hands out and the verification strategies *)
+Notation handed := (Contracts.handed T pack).
+Lemma handed_kids_nonempty sid c : (C -> handed sid) -> forall r, In r (rules_from_strategy sid c) -> kids_nonempty r.
 Proof.
-  intros I L H Hr. destruct I as (W & _). destruct L as ((W' & _) & X & R).
-  specialize (H (R Hr)). unfold kids_lbl in *. eapply Forall_impl; [|exact H].
-  intros [c l]; simpl. apply (lbl_ext _ _ _ _ W W' X).
-Qed.
-
-Lemma labelled_leq s s' sym start ends r : Inv s -> leq s s' ->
-  (running s = true -> labelled (cdb s) sym start ends r) -> (running s' = true -> labelled (cdb s') sym start ends r).
-Proof.
-  intros I L H Hr. destruct I as (W & _). destruct L as ((W' & _) & X & R).
-  destruct (H (R Hr)) as ((A & cs & B & D & E) & P). split.
-  - split; [apply (lbl_ext _ _ _ _ W W' X); auto|].
-    exists cs; csplit; auto. apply (labels_of_ext _ _ _ _ W W' X); auto.
-  - destruct P as [P|(sid0 & c0 & l0 & P1 & P2)]; [left; auto|right].
-    exists sid0, c0, l0; split; auto. apply (lbl_ext _ _ _ _ W W' X); auto.
-Qed.
-
-Lemma strat_of_neg : strat_of T (-1) = None.
-Proof. reflexivity. Qed.
-
-Lemma kids_sp_rule r cs : r_kind r <> REmpty -> rule_children r = Some cs ->
-  kids_sp (r_sid r) (r_parent r) = cs /\ applies T (r_sid r) (r_parent r) = true.
-Proof.
-  unfold Model.rule_children, Inv.kids_sp, applies. intros Hk.
-  destruct (r_kind r); try congruence; destruct (entry_of (r_sid r) (r_parent r)); simpl; intros [= <-]; auto.
-Qed.
-
-Lemma kids_sp_empty r : r_kind r = REmpty -> r_sid r = -1 ->
-  rule_children r = Some [] /\ kids_sp (r_sid r) (r_parent r) = [].
-Proof.
-  intros Hk Hs. unfold Model.rule_children, Inv.kids_sp, Model.entry_of. rewrite Hk, Hs, strat_of_neg. auto.
-Qed.
-
-Lemma r_pe_of r : r_kind r <> REmpty -> r_pe T r = pe_of (r_sid r).
-Proof. unfold r_pe, Inv.pe_of. destruct (r_kind r); congruence. Qed.
-
-Lemma combine_firstn {A B} (P : A -> B -> Prop) (ends : list B) : forall cs : list A,
-  Forall2 P (firstn (length ends) cs) ends -> Forall (fun cl => P (fst cl) (snd cl)) (combine cs ends).
-Proof.
-  induction ends as [|l t IH]; intros cs H.
-  - destruct cs; constructor.
-  - destruct cs as [|c cs']; simpl in *; [inversion H|].
-    inversion H; subst. constructor; auto.
-Qed.
-
-Lemma firstn_length_le {A} (n : nat) (l : list A) : (n <= length l)%nat -> length (firstn n l) = n.
-Proof. intros. rewrite firstn_length. lia. Qed.
-
-Lemma Forall2_length' {A B} (P : A -> B -> Prop) l l' : Forall2 P l l' -> length l = length l'.
-Proof. induction 1; simpl; auto. Qed.
-
-Lemma labelled_add_ok d sym start ends r : rule_good r -> labelled d sym start ends r ->
-  add_ok T d start ends (r_sid r) (r_parent r).
-Proof.
-  intros G ((A & cs & B & D & E) & P). unfold add_ok. split; auto.
-  destruct G as [(Hk & Hs & Ho)|(Hk & Hy & Hn)].
-  - destruct (kids_sp_empty r Hk Hs) as (B' & K). rewrite B' in B. injection B as <-.
-    rewrite K. split; auto. left. csplit; auto.
-    destruct sym; [destruct E as (E & F & _); congruence|destruct ends; simpl in *; auto; discriminate].
-  - destruct (kids_sp_rule r cs Hk B) as (K & Ap). rewrite K. split; auto. right.
-    csplit; auto.
-    + destruct P as [P|(sid0 & c0 & l0 & P1 & P2)]; [contradiction|]. exists sid0, c0, l0, r; auto.
-    + destruct sym; auto.
-Qed.
-
-(* ------------------------------------------ _expand_class_with_strategy *)
-Lemma rule_kind_of_strategy sid c r : In r (rules_from_strategy sid c) -> r_kind r <> REmpty.
-Proof.
-  unfold Model.rules_from_strategy. destruct (strat_of T sid) as [x|]; [|intros []].
-  destruct (s_kind x =? 1).
-  - rewrite in_flat_map. intros (it & _ & Hin). unfold rules_of_item in Hin.
-    destruct (i_on it); [destruct (i_lazy it)|];
-      try (destruct (applies T (i_sid it) _) in Hin); simpl in Hin;
-      try contradiction; destruct Hin as [<-|[]]; simpl; congruence.
-  - destruct (applies T sid c); [|intros []]. intros [<-|[]]; simpl. destruct (s_kind x =? 2); congruence.
-Qed.
-
-Lemma label_rule_ok s c label r s' o :
-  Inv s -> RL s c label -> (exists sid0, In r (rules_from_strategy sid0 c)) ->
-  label_rule T s c label r = (s', o) ->
-  leq s s' /\
-  match o with
-  | None => True
-  | Some (start, ends) =>
-      (forall cs, rule_children r = Some cs -> cs <> [r_parent r]) /\
-      (running s' = true -> labelled (cdb s') false start ends r)
-  end.
-Proof.
-  intros I Hl (sid0 & Hsid0). unfold label_rule. destruct (rule_children r) as [cs|] eqn:Ec.
-  2:{ intros [= <- <-]. split; [apply leq_refl; auto|exact Logic.I]. }
-  destruct (match cs with [c0] => r_parent r =? c0 | _ => false end) eqn:Eself.
-  { intros [= <- <-]. split; [apply leq_refl; auto|exact Logic.I]. }
-  destruct (get_labels T s cs) as [s1 ends] eqn:E1.
-  destruct (get_labels_ok T C cs s s1 ends I E1) as (L1 & H1).
-  assert (Inv s1) as I1 by (apply (leq_inv _ _ _ _ L1)).
-  assert (cs <> [r_parent r]) as Hns.
-  { intros ->. simpl in Eself. rewrite Z.eqb_refl in Eself. discriminate. }
-  destruct (r_parent r =? c) eqn:Ep.
-  - intros [= <- <-]. apply Z.eqb_eq in Ep. split; auto. split.
-    + intros cs' Hc'. congruence.
-    + intros Hr. pose proof (RL_leq T C s s1 c label I L1 Hl Hr) as Hc1. split.
-      * split; [rewrite Ep; exact Hc1|].
-        specialize (H1 Hr). pose proof (Forall2_length' _ _ _ H1) as Hlen.
-        exists cs; csplit; auto. rewrite firstn_all2; [exact H1|lia].
-      * right. exists sid0, c, label; auto.
-  - destruct (get_label_c T s1 (r_parent r)) as [s2 start] eqn:E2.
-    destruct (get_label_c_ok T C s1 (r_parent r) s2 start I1 E2) as (L2 & H2).
-    intros [= <- <-]. split; [eapply leq_trans; eauto|]. split.
-    + intros cs' Hc'. congruence.
-    + intros Hr. split.
-      * split; [apply H2; auto|].
-        assert (labels_of (cdb s2) cs ends) as H1' by (apply (RLs_leq T C s1 s2 cs ends I1 L2 H1 Hr)).
-        pose proof (Forall2_length' _ _ _ H1') as Hlen.
-        exists cs; csplit; auto. rewrite firstn_all2; [exact H1'|lia].
-      * right. exists sid0, c, label; split; auto.
-        apply (RL_leq T C s1 s2 c label I1 L2 (RL_leq T C s s1 c label I L1 Hl) Hr).
-Qed.
-
-Lemma emit_cdb e s : cdb (emit e s) = cdb s.
-Proof. unfold emit. destruct (running s); reflexivity. Qed.
-Lemma emit_running e s : running (emit e s) = running s.
-Proof. unfold emit. destruct (running s) eqn:R; auto. Qed.
-
-Lemma emits_ok es : forall s, Inv s -> (running s = true -> Forall (ev_ok (cdb s)) es) -> leq s (emits es s).
-Proof.
-  induction es as [|e t IH]; intros s I H; simpl.
-  - apply leq_refl; auto.
-  - assert (leq s (emit e s)) as L.
-    { apply emit_ok; auto. intros Hr. specialize (H Hr). inversion H; auto. }
-    eapply leq_trans; [exact L|]. apply IH; [apply (leq_inv _ _ _ _ L)|].
-    rewrite emit_running, emit_cdb. intros Hr. specialize (H Hr). inversion H; auto.
-Qed.
-
-(* for start_label, end_labels, rule in self._expand_class_with_strategy(...): body
-   -- the body is only ever run in states later than s0 *)
-Definition body_spec (s0 : st) (rules : list rule) (body : st -> Z -> list Z -> rule -> st) : Prop :=
-  forall s start ends r, leq s0 s -> In r rules -> Inv s ->
-    (forall cs, rule_children r = Some cs -> cs <> [r_parent r]) ->
-    (running s = true -> labelled (cdb s) false start ends r) -> leq s (body s start ends r).
-
-Lemma for_rules_ok s0 body sid0 c rules0 : body_spec s0 rules0 body -> incl rules0 (rules_from_strategy sid0 c) ->
-  forall rules, incl rules rules0 -> forall s label, leq s0 s -> Inv s -> RL s c label ->
-  leq s (for_rules T body s c label rules).
-Proof.
-  intros HB Hsub. induction rules as [|r t IH]; intros Hin s label L0 I Hl; simpl.
-  - apply leq_refl; auto.
-  - destruct (label_rule T s c label r) as [s1 o] eqn:E1.
-    assert (exists sid1, In r (rules_from_strategy sid1 c)) as Hpr
-      by (exists sid0; apply Hsub; apply Hin; left; auto).
-    destruct (label_rule_ok s c label r s1 o I Hl Hpr E1) as (L1 & Ho).
-    assert (Inv s1) as I1 by (apply (leq_inv _ _ _ _ L1)).
-    assert (leq s0 s1) as L01 by (eapply leq_trans; eauto).
-    assert (incl t rules0) as Hin' by (intros x Hx; apply Hin; right; auto).
-    destruct o as [[start ends]|].
-    + destruct Ho as (Hn & Hlab).
-      assert (leq s1 (body s1 start ends r)) as L2.
-      { apply HB; auto. apply Hin; left; auto. }
-      eapply leq_trans; [exact L1|]. eapply leq_trans; [exact L2|].
-      apply IH; auto.
-      * eapply leq_trans; eauto.
-      * apply (leq_inv _ _ _ _ L2).
-      * apply (RL_leq T C s1 _ c label I1 L2). apply (RL_leq T C s s1 c label I L1 Hl).
-    + eapply leq_trans; [exact L1|]. apply IH; auto. apply (RL_leq T C s s1 c label I L1 Hl).
-Qed.
-
-Lemma rule_good_of_strategy sid c r : In r (rules_from_strategy sid c) ->
-  (forall cs, rule_children r = Some cs -> cs <> [r_parent r]) -> rule_good r.
-Proof.
-  intros Hin Hn. right. csplit; auto. eapply rule_kind_of_strategy; eauto. exists sid, c; auto.
-Qed.
-
-Lemma ar_body s0 sid c ar : ar_spec ar -> body_spec s0 (rules_from_strategy sid c) ar.
-Proof.
-  intros HA s start ends r _ Hin I Hn Hl. apply HA; auto. eapply rule_good_of_strategy; eauto.
-Qed.
-
-Lemma expand_with_ok ar s c sid label : ar_spec ar -> Inv s -> RL s c label ->
-  leq s (expand_with T ar s c sid label).
-Proof.
-  intros HA I Hl. unfold expand_with.
-  apply (for_rules_ok s ar sid c (rules_from_strategy sid c) (ar_body s sid c ar HA)); auto.
-  apply incl_refl. apply incl_refl. apply leq_refl; auto.
-Qed.
-
-(* ------------------------------------------------------ RuleDBBase.add *)
-Lemma clean_labels_ok pe kids : forall s s1 cl,
-  Inv s -> RK s kids -> clean_labels T s pe kids = (s1, cl) ->
-  leq s s1 /\
-  exists bs, length bs = length kids /\ cl = map snd (select bs kids) /\
-    (pe = false -> Forall (fun b => b = true) bs) /\
-    (C -> running s1 = true -> bs = map (fun cl => negb (pe && oracle (fst cl))) kids).
-Proof.
-  induction kids as [|[c l] t IH]; intros s s1 cl I Hk; simpl.
-  - intros [= <- <-]. split; [apply leq_refl; auto|]. exists []. csplit; auto.
-  - assert (RK s t) as Hkt by (intros Hr; specialize (Hk Hr); inversion Hk; auto).
-    assert (RL s c l) as Hcl by (intros Hr; specialize (Hk Hr); inversion Hk; auto).
-    destruct pe.
-    + destruct (is_empty_cl T s c (Some l)) as [s' b] eqn:E1.
-      destruct (is_empty_cl_ok T C s c (Some l) s' b I) as (L1 & Hb); auto.
-      { intros l0 [= <-]; auto. }
-      assert (Inv s') as I1 by (apply (leq_inv _ _ _ _ L1)).
-      destruct b.
-      * assert (leq s' (emit (EvQStop l) s')) as L2 by (apply emit_ok; simpl; auto).
-        intros E2. destruct (IH _ _ _ (leq_inv _ _ _ _ L2) (RK_leq _ _ _ I1 L2 (RK_leq _ _ _ I L1 Hkt)) E2)
-          as (L3 & bs & Hlen & Hcl' & Hpe & HC).
-        split; [eapply leq_trans; [exact L1|eapply leq_trans; eauto]|].
-        exists (false :: bs). csplit; simpl; auto; try discriminate.
-        intros HCC Hr. rewrite (HC HCC Hr). f_equal.
-        assert (running s' = true) as Hr'.
-        { destruct L3 as (_ & _ & R3). destruct L2 as (_ & _ & R2). auto. }
-        rewrite <- (Hb HCC Hr'). reflexivity.
-      * destruct (clean_labels T s' true t) as [s2 rest] eqn:E2. intros [= <- <-].
-        destruct (IH _ _ _ I1 (RK_leq _ _ _ I L1 Hkt) E2) as (L3 & bs & Hlen & Hcl' & Hpe & HC).
-        split; [eapply leq_trans; eauto|].
-        exists (true :: bs). csplit; simpl; auto; try discriminate. rewrite Hcl'; auto.
-        intros HCC Hr. rewrite (HC HCC Hr). f_equal.
-        assert (running s' = true) as Hr' by (destruct L3 as (_ & _ & R3); auto).
-        rewrite <- (Hb HCC Hr'). reflexivity.
-    + destruct (clean_labels T s false t) as [s2 rest] eqn:E2. intros [= <- <-].
-      destruct (IH _ _ _ I Hkt E2) as (L3 & bs & Hlen & Hcl' & Hpe & HC).
-      split; auto. exists (true :: bs). csplit; simpl; auto. rewrite Hcl'; auto.
-      intros HCC Hr. rewrite (HC HCC Hr). reflexivity.
-Qed.
-
-Lemma select_map_snd {A B} (bs : list bool) : forall (l : list (A * B)),
-  map snd (select bs l) = select bs (map snd l).
-Proof.
-  induction bs as [|b t IH]; intros [|x l]; simpl; auto. destruct b; simpl; rewrite IH; auto.
-Qed.
-
-Lemma map_snd_combine {A B} (ends : list B) : forall (cs : list A),
-  (length ends <= length cs)%nat -> map snd (combine cs ends) = ends.
-Proof.
-  induction ends as [|l t IH]; intros [|c cs] H; simpl in *; auto; try lia. rewrite IH; auto. lia.
-Qed.
-
-Lemma map_fst_combine {A B} (ends : list B) : forall (cs : list A),
-  map fst (combine cs ends) = firstn (length ends) cs.
-Proof.
-  induction ends as [|l t IH]; intros [|c cs]; simpl in *; auto. rewrite IH; auto.
-Qed.
-
-Lemma labelled_kids d sym start ends r : labelled d sym start ends r ->
-  kids_lbl d (combine (kids_of T r) ends) /\ (length ends <= length (kids_of T r))%nat.
-Proof.
-  intros ((A & cs & B & D & E) & _). unfold kids_of. rewrite B. split.
-  - apply (combine_firstn (fun c l => lbl d c = Some l)); auto.
-  - pose proof (Forall2_length' _ _ _ D) as Hl. rewrite firstn_length in Hl. lia.
-Qed.
-
-Lemma labelled_store_ok d sym start ends r bs :
-  rule_good r -> labelled d sym start ends r ->
-  length bs = length (combine (kids_of T r) ends) ->
-  (r_pe T r = false -> Forall (fun b => b = true) bs) ->
-  (C -> bs = map (fun cl => negb (r_pe T r && oracle (fst cl))) (combine (kids_of T r) ends)) ->
-  store_ok T C d start (isort (map snd (select bs (combine (kids_of T r) ends)))) (r_sid r) (r_parent r).
-Proof.
-  intros G Hl Hlen Hpe HC. destruct (labelled_kids _ _ _ _ _ Hl) as (Hk & Hle).
-  destruct Hl as ((A & cs & B & D & E) & _). split; auto.
-  assert (kids_of T r = cs) as Ek by (unfold kids_of; rewrite B; auto). rewrite Ek in *.
-  assert (kids_sp (r_sid r) (r_parent r) = cs /\ r_pe T r = pe_of (r_sid r) \/ cs = []) as Hsp.
-  { destruct G as [(Hk1 & Hs & _)|(Hk1 & _)].
-    - right. destruct (kids_sp_empty r Hk1 Hs) as (B' & _). congruence.
-    - left. split; [apply (kids_sp_rule r cs Hk1 B)|apply r_pe_of; auto]. }
-  exists ends, bs. rewrite select_map_snd, map_snd_combine by auto.
-  rewrite combine_length in Hlen.
-  destruct Hsp as [(Hsp & Hpe')|Hnil]; [|rewrite Hnil in *].
-  - rewrite Hsp. csplit; auto; try lia.
-    + rewrite <- Hpe'; auto.
-    + intros HCC. rewrite (HC HCC), <- Hpe', <- map_fst_combine, map_map. reflexivity.
-  - destruct ends; simpl in Hle; [|lia]. destruct bs; simpl in Hlen; [|lia].
-    csplit; simpl; auto; try (destruct (kids_sp _ _); constructor).
-Qed.
-
-Lemma base_add_ok s sym start ends r : Inv s -> rule_good r ->
-  (running s = true -> labelled (cdb s) sym start ends r) -> leq s (base_add T s start ends r).
-Proof.
-  intros I G Hl. unfold base_add.
-  destruct (clean_labels T s (r_pe T r) (combine (kids_of T r) ends)) as [s1 cl] eqn:E1.
-  assert (RK s (combine (kids_of T r) ends)) as Hk.
-  { intros Hr. apply (labelled_kids _ _ _ _ _ (Hl Hr)). }
-  destruct (clean_labels_ok _ _ _ _ _ I Hk E1) as (L1 & bs & Hlen & Hcl & Hpe & HC).
-  assert (Inv s1) as I1 by (apply (leq_inv _ _ _ _ L1)).
-  assert (forall eqv, running s1 = true ->
-            ev_ok (cdb s1) (EvStore eqv start (isort cl) (r_sid r) (r_parent r))) as Hst.
-  { intros eqv Hr. simpl. rewrite Hcl.
-    apply (labelled_store_ok _ sym); auto. apply (labelled_leq s s1 sym start ends r I L1 Hl Hr). }
-  assert (forall es, Forall (fun e => match e with EvStore _ a b c d => a = start /\ b = isort cl /\ c = r_sid r /\ d = r_parent r
-                                    | EvAdd _ _ _ _ | EvSetEmpty _ _ => False | _ => True end) es ->
-            leq s1 (emits es s1)) as Hem.
-  { intros es Hes. apply emits_ok; auto. intros Hr. eapply Forall_impl; [|exact Hes].
-    intros e. destruct e; simpl; auto; try contradiction. intros (-> & -> & -> & ->). apply (Hst eqv Hr). }
-  set (ver := if is_ver r then [EvVerified start] else []).
-  assert (Forall (fun e => match e with EvStore _ a b c d => a = start /\ b = isort cl /\ c = r_sid r /\ d = r_parent r
-                         | EvAdd _ _ _ _ | EvSetEmpty _ _ => False | _ => True end) ver) as Hver.
-  { unfold ver. destruct (is_ver r); repeat constructor. }
-  assert (forall es rs es', Forall (fun e => match e with EvStore _ a b c d => a = start /\ b = isort cl /\ c = r_sid r /\ d = r_parent r
-                                    | EvAdd _ _ _ _ | EvSetEmpty _ _ => False | _ => True end) es ->
-            leq s1 (with_stores (emits es s1) rs es')) as Hfin.
-  { intros es rs es' Hes. eapply leq_trans; [apply Hem; exact Hes|].
-    apply with_stores_ok. apply (leq_inv _ _ _ _ (Hem _ Hes)). }
-  eapply leq_trans; [exact L1|].
-  destruct (isort cl) as [|e [|e2 t]] eqn:Es.
-  - apply Hfin. apply Forall_app; split; [exact Hver|repeat constructor; auto].
-  - destruct (r_two_way T r).
-    + cbv zeta. apply Hfin. apply Forall_app; split; [exact Hver|].
-      repeat match goal with |- context [if ?b then _ else _] => destruct b end;
-        cbn [app]; repeat constructor; auto.
-    + apply Hfin. apply Forall_app; split; [exact Hver|repeat constructor; auto].
-  - apply Hfin. apply Forall_app; split; [exact Hver|repeat constructor; auto].
+  intros Hh r Hin HC Hpe k Hk. unfold kids_of in Hk. destruct (rule_children r) as [cs|] eqn:Ec; [|destruct Hk].
+  apply (pe_contract_rule T pack (pe_contract HC) sid c r cs (Hh HC) Hin Ec Hpe k Hk).
 Qed.
 
 (* ---------------------------------------------------- RuleDBForest.add *)
@@ -377,8 +94,8 @@ Proof.
   - intros [= <- <-]. apply leq_refl; auto.
   - destruct (is_empty_cl T s c None) as [s1 b] eqn:E1.
     destruct (count_nonempty T s1 t) as [s2 m] eqn:E2. intros [= <- <-].
-    destruct (is_empty_cl_ok T C s c None s1 b I) as (L1 & _); auto. { intros l0; discriminate. }
-    eapply leq_trans; [exact L1|]. eapply IH; eauto. apply (leq_inv _ _ _ _ L1).
+    destruct (is_empty_cl_ok s c None s1 b I) as (L1 & _); auto. { intros l0; discriminate. }
+    eapply leq_trans; [exact L1|]. eapply IH; eauto. apply (leq_inv _ _ L1).
 Qed.
 
 Lemma plain_key_ok s normal p cs sh s' k : Inv s -> plain_key T s normal p cs sh = (s', k) ->
@@ -388,9 +105,9 @@ Proof.
   destruct (get_label_c T s p) as [s1 pl] eqn:E1.
   destruct (get_labels T s1 cs) as [s2 ls] eqn:E2.
   destruct (count_nonempty T s2 cs) as [s3 n] eqn:E3. intros [= <- <-].
-  destruct (get_label_c_ok T C _ _ _ _ I E1) as (L1 & _).
-  destruct (get_labels_ok T C _ _ _ _ (leq_inv _ _ _ _ L1) E2) as (L2 & _).
-  pose proof (count_nonempty_ok _ _ _ _ (leq_inv _ _ _ _ L2) E3) as L3.
+  destruct (get_label_c_ok _ _ _ _ I E1) as (L1 & _).
+  destruct (get_labels_ok _ _ _ _ (leq_inv _ _ L1) E2) as (L2 & _).
+  pose proof (count_nonempty_ok _ _ _ _ (leq_inv _ _ L2) E3) as L3.
   split; auto. eapply leq_trans; [exact L1|eapply leq_trans; eauto].
 Qed.
 
@@ -403,8 +120,8 @@ Proof.
           leq s s' /\ match k with EvKey _ _ _ _ => True | _ => False end) as Hv.
   { intros s0 k0. destruct (get_label_c T s (r_parent r)) as [s1 pl] eqn:E1.
     destruct (get_labels T s1 (kids_of T r)) as [s2 ls] eqn:E2. intros [= <- <-].
-    destruct (get_label_c_ok T C _ _ _ _ I E1) as (L1 & _).
-    destruct (get_labels_ok T C _ _ _ _ (leq_inv _ _ _ _ L1) E2) as (L2 & _).
+    destruct (get_label_c_ok _ _ _ _ I E1) as (L1 & _).
+    destruct (get_labels_ok _ _ _ _ (leq_inv _ _ L1) E2) as (L2 & _).
     split; auto. eapply leq_trans; eauto. }
   destruct (r_kind r); auto. apply plain_key_ok; auto.
 Qed.
@@ -417,12 +134,16 @@ Proof.
   - destruct (plain_key T s false _ _ _) as [s1 k] eqn:E1.
     destruct (reverse_keys T s1 r t) as [s2 ks2] eqn:E2. intros [= <- <-].
     destruct (plain_key_ok _ _ _ _ _ _ _ I E1) as (L1 & Hk).
-    destruct (IH _ _ _ (leq_inv _ _ _ _ L1) E2) as (L2 & Hks).
+    destruct (IH _ _ _ (leq_inv _ _ L1) E2) as (L2 & Hks).
     split; [eapply leq_trans; eauto|constructor; auto].
 Qed.
 
 Lemma keys_ev_ok d ks : Forall (fun k => match k with EvKey _ _ _ _ => True | _ => False end) ks ->
   Forall (ev_ok d) ks.
+Proof. intros H. eapply Forall_impl; [|exact H]. intros k. destruct k; simpl; auto; contradiction. Qed.
+
+Lemma keys_neutral ks : Forall (fun k => match k with EvKey _ _ _ _ => True | _ => False end) ks ->
+  Forall (fun e => neutral e = true) ks.
 Proof. intros H. eapply Forall_impl; [|exact H]. intros k. destruct k; simpl; auto; contradiction. Qed.
 
 Lemma add_empty_rules_ok ar kids : ar_spec ar -> forall s, Inv s ->
@@ -433,22 +154,22 @@ Proof.
   - apply leq_refl; auto.
   - assert (RL s c l) as Hcl by (intros Hr; specialize (Hk Hr); inversion Hk; auto).
     assert (forall s', leq s s' -> leq s (add_empty_rules T ar s' t)) as Hrest.
-    { intros s' L. eapply leq_trans; [exact L|]. apply IH; [apply (leq_inv _ _ _ _ L)|].
+    { intros s' L. eapply leq_trans; [exact L|]. apply IH; [apply (leq_inv _ _ L)|].
       intros Hr. destruct I as (W & _). destruct L as ((W' & _) & X & R).
       specialize (Hk (R Hr)). inversion Hk; subst. eapply Forall_impl; [|eassumption].
       intros [l0 c0]; simpl. apply (lbl_ext _ _ _ _ W W' X). }
     apply Hrest.
     destruct (mem l (already s)); [apply leq_refl; auto|].
     destruct (is_empty_cl T s c (Some l)) as [s1 b] eqn:E1.
-    destruct (is_empty_cl_ok T C s c (Some l) s1 b I) as (L1 & _); auto. { intros l0 [= <-]; auto. }
-    assert (Inv s1) as I1 by (apply (leq_inv _ _ _ _ L1)).
+    destruct (is_empty_cl_ok s c (Some l) s1 b I) as (L1 & _); auto. { intros l0 [= <-]; auto. }
+    assert (Inv s1) as I1 by (apply (leq_inv _ _ L1)).
     destruct b; auto.
     destruct (oracle c) eqn:Eo.
     + assert (leq s1 (add_already l s1)) as L2 by (apply add_already_ok; auto).
       eapply leq_trans; [exact L1|]. eapply leq_trans; [exact L2|].
-      apply HA; [apply (leq_inv _ _ _ _ L2)|left; simpl; auto|].
+      apply HA; [apply (leq_inv _ _ L2)|left; simpl; auto|intros _ _ k []|].
       intros Hr. split; [split; simpl|left; reflexivity].
-      * apply (RL_leq T C s1 _ c l I1 L2 (RL_leq T C s s1 c l I L1 Hcl) Hr).
+      * apply (RL_leq s1 _ c l I1 L2 (RL_leq s s1 c l I L1 Hcl) Hr).
       * exists []. csplit; auto. constructor.
     + eapply leq_trans; [exact L1|apply fail_ok; auto].
 Qed.
@@ -472,15 +193,16 @@ Proof.
     intros Hr. destruct (Hl Hr) as ((A & cs & B & D & E) & _). unfold kids_of. rewrite B.
     apply (combine_firstn' (fun c l => lbl (cdb s) c = Some l)); auto. }
   destruct (forest_key T s1 r) as [s2 k0] eqn:E2.
-  destruct (forest_key_ok _ _ _ _ (leq_inv _ _ _ _ L1) E2) as (L2 & Hk0).
-  assert (Inv s2) as I2 by (apply (leq_inv _ _ _ _ L2)).
+  destruct (forest_key_ok _ _ _ _ (leq_inv _ _ L1) E2) as (L2 & Hk0).
+  assert (Inv s2) as I2 by (apply (leq_inv _ _ L2)).
   destruct ((mode =? 2) && r_reversible T r).
   - destruct (reverse_keys T s2 r _) as [s3 ks] eqn:E3.
     destruct (reverse_keys_ok _ _ _ _ _ I2 E3) as (L3 & Hks).
     eapply leq_trans; [exact L1|]. eapply leq_trans; [exact L2|]. eapply leq_trans; [exact L3|].
-    apply emits_ok; [apply (leq_inv _ _ _ _ L3)|]. intros _. apply keys_ev_ok. constructor; auto.
+    apply emits_ok; [apply (leq_inv _ _ L3)|apply keys_neutral; constructor; auto|].
+    intros _. apply keys_ev_ok. constructor; auto.
   - eapply leq_trans; [exact L1|]. eapply leq_trans; [exact L2|].
-    apply emits_ok; auto. intros _. apply keys_ev_ok. constructor; auto.
+    apply emits_ok; [exact I2|apply keys_neutral; constructor; auto|]. intros _. apply keys_ev_ok. constructor; auto.
 Qed.
 
 (* self.ruledb.add(start, ends, rule) *)
@@ -488,13 +210,20 @@ Lemma ruledb_add_ok ar s sym start ends r : ar_spec ar -> Inv s -> rule_good r -
   (running s = true -> labelled (cdb s) sym start ends r) -> leq s (ruledb_add T mode ar s start ends r).
 Proof.
   intros HA I G Hl. unfold ruledb_add.
-  assert (leq s (emit (EvAdd start ends (r_sid r) (r_parent r)) s)) as L0.
-  { apply emit_ok; auto. intros Hr. simpl. eapply labelled_add_ok; eauto. }
-  set (s0 := emit (EvAdd start ends (r_sid r) (r_parent r)) s) in *.
-  assert (running s0 = true -> labelled (cdb s0) sym start ends r) as Hl0.
-  { unfold s0. rewrite emit_running, emit_cdb. auto. }
-  eapply leq_trans; [exact L0|].
-  destruct (mode =? 0); [eapply base_add_ok|eapply forest_add_ok]; eauto; apply (leq_inv _ _ _ _ L0).
+  assert ({(mode =? 0) = true} + {(mode =? 0) = false}) as [Em|Em] by (destruct (mode =? 0); auto); rewrite Em.
+  - (* RuleDB / RuleDBForgetStrategy: the plain invariant by ProofsCore, the ghost predicate by G_base *)
+    destruct (ruledb_base_ok0 T C s sym start ends r (Inv0_of T C GP s I) G Hl) as ((W' & E' & F' & _) & X & R).
+    unfold Inv.leq, Inv.Inv. split; [|split; [exact X|exact R]].
+    split; [exact W'|]. split; [exact E'|]. split; [exact F'|].
+    intros HC. apply (G_base HC Em s sym start ends r I G Hl). destruct I as (_ & _ & _ & Gh). apply (Gh HC).
+  - assert (leq s (emit (EvAdd start ends (r_sid r) (r_parent r)) s)) as L0.
+    { apply emit_ok; [exact I| |].
+      - intros Hr. simpl. eapply labelled_add_ok; eauto.
+      - intros HC _ Hg. apply (G_forest HC Em); auto. }
+    set (s0 := emit (EvAdd start ends (r_sid r) (r_parent r)) s) in *.
+    assert (running s0 = true -> labelled (cdb s0) sym start ends r) as Hl0.
+    { unfold s0. rewrite emit_running, emit_cdb. auto. }
+    eapply leq_trans; [exact L0|]. eapply forest_add_ok; eauto; apply (leq_inv _ _ L0).
 Qed.
 
 (* ---------------------------------------------------- _symmetry_expand *)
@@ -508,7 +237,7 @@ Proof.
     eapply leq_trans; [exact L1|]. apply IH.
     + intros x Hx; apply Hin; right; auto.
     + eapply leq_trans; eauto.
-    + apply (leq_inv _ _ _ _ L1).
+    + apply (leq_inv _ _ L1).
 Qed.
 
 Lemma symmetry_expand_ok ar s c label : ar_spec ar -> Inv s -> RL s c label ->
@@ -517,19 +246,19 @@ Proof.
   intros HA I Hl. unfold symmetry_expand.
   assert (leq s (set_symacc [label] s)) as L0 by (apply set_symacc_ok; auto).
   set (s0 := set_symacc [label] s) in *.
-  assert (Inv s0) as I0 by (apply (leq_inv _ _ _ _ L0)).
+  assert (Inv s0) as I0 by (apply (leq_inv _ _ L0)).
   destruct (is_empty_cl T s0 c (Some label)) as [s1 empty] eqn:E1.
-  destruct (is_empty_cl_ok T C s0 c (Some label) s1 empty I0) as (L1 & Hb); auto.
-  { intros l0 [= <-]. apply (RL_leq T C s s0 c label I L0 Hl). }
-  assert (Inv s1) as I1 by (apply (leq_inv _ _ _ _ L1)).
-  assert (RL s1 c label) as Hl1 by (apply (RL_leq T C s0 s1 c label I0 L1 (RL_leq T C s s0 c label I L0 Hl))).
+  destruct (is_empty_cl_ok s0 c (Some label) s1 empty I0) as (L1 & Hb); auto.
+  { intros l0 [= <-]. apply (RL_leq s s0 c label I L0 Hl). }
+  assert (Inv s1) as I1 by (apply (leq_inv _ _ L1)).
+  assert (RL s1 c label) as Hl1 by (apply (RL_leq s0 s1 c label I0 L1 (RL_leq s s0 c label I L0 Hl))).
   eapply leq_trans; [exact L0|]. eapply leq_trans; [exact L1|].
   match goal with |- leq s1 (flush_symacc (fold_left ?f _ _)) => set (F := f) end.
   assert (leq s1 (fold_left F (t_sym T) s1)) as L2.
   { apply (fold_sids_ok F s1 (t_sym T)); auto; [|apply incl_refl|apply leq_refl; auto].
     intros s2 sid Hsid L12 I2. unfold F, expand_with.
     eapply (for_rules_ok s1 _ sid c (rules_from_strategy sid c)); auto; [|apply incl_refl|apply incl_refl|].
-    2:{ apply (RL_leq T C s1 s2 c label I1 L12 Hl1). }
+    2:{ apply (RL_leq s1 s2 c label I1 L12 Hl1). }
     intros s3 start ends r L13 Hin I3 Hn Hlab.
     destruct ends as [|sl rest]; [apply fail_ok; auto|].
     (* the first child and its label *)
@@ -541,7 +270,7 @@ Proof.
       exists c0; split; auto. intros HC. rewrite (sym_contract HC sid c r c0 cs' Hsid Hin B).
       symmetry. apply Hb; auto. destruct L13 as (_ & _ & R). auto. }
     set (s4 := set_empty_ev T s3 sl empty) in *.
-    assert (Inv s4) as I4 by (apply (leq_inv _ _ _ _ La)).
+    assert (Inv s4) as I4 by (apply (leq_inv _ _ La)).
     assert (rule_good r) as G by (eapply rule_good_of_strategy; eauto).
     assert (leq s4 (ruledb_add T mode ar s4 start [sl] r)) as Lb.
     { apply (ruledb_add_ok ar s4 true); auto. intros Hr.
@@ -552,25 +281,26 @@ Proof.
       - destruct cs; simpl in E; [discriminate|congruence].
       - exists sid, c, r; auto. }
     set (s5 := ruledb_add T mode ar s4 start [sl] r) in *.
-    assert (leq s5 (emit (EvQStop sl) s5)) as Lc by (apply emit_ok; [apply (leq_inv _ _ _ _ Lb)|simpl; auto]).
+    assert (leq s5 (emit (EvQStop sl) s5)) as Lc by (apply emit_neutral_ok; [reflexivity|apply (leq_inv _ _ Lb)|simpl; auto]).
     eapply leq_trans; [exact La|]. eapply leq_trans; [exact Lb|]. eapply leq_trans; [exact Lc|].
-    apply set_symacc_ok. apply (leq_inv _ _ _ _ Lc). }
-  eapply leq_trans; [exact L2|]. apply flush_symacc_ok. apply (leq_inv _ _ _ _ L2).
+    apply set_symacc_ok. apply (leq_inv _ _ Lc). }
+  eapply leq_trans; [exact L2|]. apply flush_symacc_ok. apply (leq_inv _ _ L2).
 Qed.
 
 (* ---------------------------------------------------------- try_verify *)
-Lemma ver_loop_ok ar c label : ar_spec ar -> forall sids s, Inv s -> RL s c label ->
+Lemma ver_loop_ok ar c label : ar_spec ar -> forall sids, (C -> incl sids (t_ver T)) -> forall s, Inv s -> RL s c label ->
   leq s (ver_loop T ar s c label sids).
 Proof.
-  intros HA. induction sids as [|sid t IH]; intros s I Hl; simpl.
+  intros HA. induction sids as [|sid t IH]; intros Hsub s I Hl; simpl.
   - apply leq_refl; auto.
   - destruct (pop_answer s) as [s1 a] eqn:E1.
-    pose proof (pop_answer_ok T C _ _ _ I E1) as L1. assert (Inv s1) as I1 by (apply (leq_inv _ _ _ _ L1)).
+    pose proof (pop_answer_ok _ _ _ I E1) as L1. assert (Inv s1) as I1 by (apply (leq_inv _ _ L1)).
     destruct a; auto.
-    assert (RL s1 c label) as Hl1 by (apply (RL_leq T C s s1 c label I L1 Hl)).
-    assert (leq s1 (expand_with T ar s1 c sid label)) as L2 by (apply expand_with_ok; auto).
+    assert (RL s1 c label) as Hl1 by (apply (RL_leq s s1 c label I L1 Hl)).
+    assert (leq s1 (expand_with T ar s1 c sid label)) as L2.
+    { apply expand_with_ok; auto. apply handed_kids_nonempty. intros HC. right. apply (Hsub HC). left; reflexivity. }
     eapply leq_trans; [exact L1|]. eapply leq_trans; [exact L2|].
-    apply IH; [apply (leq_inv _ _ _ _ L2)|apply (RL_leq T C s1 _ c label I1 L2 Hl1)].
+    apply IH; [intros HC x Hx; apply (Hsub HC); right; exact Hx|apply (leq_inv _ _ L2)|apply (RL_leq s1 _ c label I1 L2 Hl1)].
 Qed.
 
 Lemma try_verify_ok ar s c label : ar_spec ar -> Inv s -> RL s c label ->
@@ -578,12 +308,12 @@ Lemma try_verify_ok ar s c label : ar_spec ar -> Inv s -> RL s c label ->
 Proof.
   intros HA I Hl. unfold try_verify. destruct (mem label (tried s)); [apply leq_refl; auto|].
   assert (leq s (add_tried label s)) as L0 by (apply add_tried_ok; auto).
-  set (s0 := add_tried label s) in *. assert (Inv s0) as I0 by (apply (leq_inv _ _ _ _ L0)).
-  assert (RL s0 c label) as Hl0 by (apply (RL_leq T C s s0 c label I L0 Hl)).
+  set (s0 := add_tried label s) in *. assert (Inv s0) as I0 by (apply (leq_inv _ _ L0)).
+  assert (RL s0 c label) as Hl0 by (apply (RL_leq s s0 c label I L0 Hl)).
   destruct (is_empty_cl T s0 c (Some label)) as [s1 b] eqn:E1.
-  destruct (is_empty_cl_ok T C s0 c (Some label) s1 b I0) as (L1 & _); auto. { intros l0 [= <-]; auto. }
+  destruct (is_empty_cl_ok s0 c (Some label) s1 b I0) as (L1 & _); auto. { intros l0 [= <-]; auto. }
   eapply leq_trans; [exact L0|]. destruct b; auto. eapply leq_trans; [exact L1|].
-  apply ver_loop_ok; auto. apply (leq_inv _ _ _ _ L1). apply (RL_leq T C s0 s1 c label I0 L1 Hl0).
+  apply ver_loop_ok; auto; [intros _; apply incl_refl|apply (leq_inv _ _ L1)|apply (RL_leq s0 s1 c label I0 L1 Hl0)].
 Qed.
 
 (* ------------------------------------------------------------ add_rule *)
@@ -595,23 +325,23 @@ Proof.
   assert (leq s s1) as L1.
   { unfold s1. destruct (r_pe T r) eqn:Ep; [apply leq_refl; auto|]. apply set_empty_ev_ok; auto.
     intros Hr. exists c; split; auto. }
-  assert (Inv s1) as I1 by (apply (leq_inv _ _ _ _ L1)).
-  assert (RL s1 c l) as Hl1 by (apply (RL_leq T C s s1 c l I L1 Hl)).
+  assert (Inv s1) as I1 by (apply (leq_inv _ _ L1)).
+  assert (RL s1 c l) as Hl1 by (apply (RL_leq s s1 c l I L1 Hl)).
   set (s2 := if has_sym T && negb (mem l (symexp s1)) then symmetry_expand T mode ar s1 c l else s1).
   assert (leq s1 s2) as L2.
   { unfold s2. destruct (has_sym T && negb (mem l (symexp s1))); [apply symmetry_expand_ok; auto|apply leq_refl; auto]. }
-  assert (Inv s2) as I2 by (apply (leq_inv _ _ _ _ L2)).
+  assert (Inv s2) as I2 by (apply (leq_inv _ _ L2)).
   set (s3 := if r_work T r then emit (EvQAdd l) s2 else s2).
   assert (leq s2 s3) as L3.
-  { unfold s3. destruct (r_work T r); [apply emit_ok; simpl; auto|apply leq_refl; auto]. }
-  assert (Inv s3) as I3 by (apply (leq_inv _ _ _ _ L3)).
+  { unfold s3. destruct (r_work T r); [apply emit_neutral_ok; simpl; auto|apply leq_refl; auto]. }
+  assert (Inv s3) as I3 by (apply (leq_inv _ _ L3)).
   set (s4 := if r_inf T r then s3 else emit (EvQNotInf l) s3).
   assert (leq s3 s4) as L4.
-  { unfold s4. destruct (r_inf T r); [apply leq_refl; auto|apply emit_ok; simpl; auto]. }
-  assert (Inv s4) as I4 by (apply (leq_inv _ _ _ _ L4)).
+  { unfold s4. destruct (r_inf T r); [apply leq_refl; auto|apply emit_neutral_ok; simpl; auto]. }
+  assert (Inv s4) as I4 by (apply (leq_inv _ _ L4)).
   eapply leq_trans; [exact L1|]. eapply leq_trans; [exact L2|]. eapply leq_trans; [exact L3|].
   eapply leq_trans; [exact L4|]. apply try_verify_ok; auto.
-  apply (RL_leq T C s3 s4 c l I3 L4). apply (RL_leq T C s2 s3 c l I2 L3). apply (RL_leq T C s1 s2 c l I1 L2 Hl1).
+  apply (RL_leq s3 s4 c l I3 L4). apply (RL_leq s2 s3 c l I2 L3). apply (RL_leq s1 s2 c l I1 L2 Hl1).
 Qed.
 
 Lemma fold_child_ok ar r : ar_spec ar -> forall kids s, Inv s -> RK s kids ->
@@ -625,34 +355,28 @@ Proof.
       - intros Hr. specialize (Hk Hr). inversion Hk; auto.
       - intros HC Hp. specialize (Hpe HC Hp). inversion Hpe; auto. }
     eapply leq_trans; [exact L1|]. apply IH.
-    + apply (leq_inv _ _ _ _ L1).
+    + apply (leq_inv _ _ L1).
     + apply (RK_leq s _ t I L1). intros Hr. specialize (Hk Hr). inversion Hk; auto.
     + intros HC Hp. specialize (Hpe HC Hp). inversion Hpe; auto.
 Qed.
 
 Lemma add_rule_ok n : ar_spec (add_rule T mode n).
 Proof.
-  induction n as [|n IH]; intros s start ends r I G Hl; simpl.
+  induction n as [|n IH]; intros s start ends r I G Hne Hl; simpl.
   - apply out_of_fuel_ok; auto.
   - destruct (rule_children r) as [cs|] eqn:Ec; [|apply fail_ok; auto].
     assert (leq s (fold_left (child_step T mode (add_rule T mode n) r) (combine cs ends) s)) as L1.
     { apply fold_child_ok; auto.
       - intros Hr. destruct (labelled_kids _ _ _ _ _ (Hl Hr)) as (Hk & _). unfold kids_of in Hk. rewrite Ec in Hk. auto.
       - intros HC Hp. apply Forall_forall. intros [c l] Hin. simpl. apply in_combine_l in Hin.
-        destruct G as [(Hk & Hs & _)|(Hk & _)].
-        + destruct (kids_sp_empty r Hk Hs) as (B & _). rewrite B in Ec. injection Ec as <-. destruct Hin.
-        + rewrite (r_pe_of r Hk) in Hp.
-          unfold Model.rule_children in Ec.
-          destruct (r_kind r); try congruence;
-            destruct (entry_of (r_sid r) (r_parent r)) as [e|] eqn:Ee; simpl in Ec; try discriminate;
-            injection Ec as <-; eapply pe_contract; eauto. }
+        apply (Hne HC Hp). unfold kids_of. rewrite Ec. exact Hin. }
     set (s1 := fold_left (child_step T mode (add_rule T mode n) r) (combine cs ends) s) in *.
-    assert (Inv s1) as I1 by (apply (leq_inv _ _ _ _ L1)).
+    assert (Inv s1) as I1 by (apply (leq_inv _ _ L1)).
     set (s2 := if r_ip T r then emit (EvQStop start) s1 else s1).
     assert (leq s1 s2) as L2.
-    { unfold s2. destruct (r_ip T r); [apply emit_ok; simpl; auto|apply leq_refl; auto]. }
+    { unfold s2. destruct (r_ip T r); [apply emit_neutral_ok; simpl; auto|apply leq_refl; auto]. }
     eapply leq_trans; [exact L1|]. eapply leq_trans; [exact L2|].
-    apply (ruledb_add_ok _ s2 false); auto. apply (leq_inv _ _ _ _ L2).
+    apply (ruledb_add_ok _ s2 false); auto. apply (leq_inv _ _ L2).
     apply (labelled_leq s1 s2 false start ends r I1 L2). apply (labelled_leq s s1 false start ends r I L1 Hl).
 Qed.
 
@@ -676,78 +400,90 @@ Proof.
     destruct (label_rule_ok s c label r s1 o1 I Hl Hpr E1) as (L1 & Ho).
     destruct o1 as [[start ends]|].
     + intros [= <- <-]. destruct Ho as (Hn & Hlab). split; auto.
-    + intros E2. destruct (IH Hsub' _ _ _ _ (leq_inv _ _ _ _ L1) (RL_leq T C s s1 c label I L1 Hl) E2) as (L2 & Ho2).
+    + intros E2. destruct (IH Hsub' _ _ _ _ (leq_inv _ _ L1) (RL_leq s s1 c label I L1 Hl) E2) as (L2 & Ho2).
       split; [eapply leq_trans; eauto|]. destruct o as [[[start ends] r0]|]; auto.
       destruct Ho2 as (A & B & D). csplit; auto.
 Qed.
 
-Definition rec_spec (rec : st -> Z -> Z -> list Z -> option Z -> st) : Prop :=
-  forall s c label sids skip, Inv s -> RL s c label -> leq s (rec s c label sids skip).
+Lemma In_firstn {A} (x : A) n : forall l, In x (firstn n l) -> In x l.
+Proof. induction n as [|n IH]; intros [|y l]; simpl; auto; [intros []|]. intros [->|H]; auto. Qed.
+Lemma In_skipn {A} (x : A) n : forall l, In x (skipn n l) -> In x l.
+Proof. induction n as [|n IH]; intros [|y l]; simpl; auto. Qed.
 
-Lemma inf_loop_ok F rec c label all skip : rec_spec rec ->
-  forall rest i s, Inv s -> RL s c label -> leq s (inf_loop T mode F rec s c label all i rest skip).
+Definition rec_spec (rec : st -> Z -> Z -> list Z -> option Z -> st) : Prop :=
+  forall s c label sids skip, (C -> incl sids pack) -> Inv s -> RL s c label -> leq s (rec s c label sids skip).
+
+Lemma inf_loop_ok F rec c label all skip : rec_spec rec -> (C -> incl all pack) ->
+  forall rest, (C -> incl rest pack) -> forall i s, Inv s -> RL s c label ->
+  leq s (inf_loop T mode F rec s c label all i rest skip).
 Proof.
-  intros HR. induction rest as [|sid t IH]; intros i s I Hl; simpl.
+  intros HR Hall. induction rest as [|sid t IH]; intros Hsub i s I Hl; simpl.
   - apply leq_refl; auto.
-  - destruct (skip_eqb skip sid); [apply IH; auto|].
+  - assert (C -> incl t pack) as Hsub' by (intros HC x Hx; apply (Hsub HC); right; exact Hx).
+    destruct (skip_eqb skip sid); [apply IH; auto|].
     destruct (first_rule T s c label (rules_from_strategy sid c)) as [s1 o] eqn:E1.
     destruct (first_rule_ok sid c _ (incl_refl _) _ _ _ _ I Hl E1) as (L1 & Ho).
-    assert (Inv s1) as I1 by (apply (leq_inv _ _ _ _ L1)).
+    assert (Inv s1) as I1 by (apply (leq_inv _ _ L1)).
     eapply leq_trans; [exact L1|].
     destruct o as [[[start ends] r]|].
-    2:{ apply IH; auto. apply (RL_leq T C s s1 c label I L1 Hl). }
+    2:{ apply IH; auto. apply (RL_leq s s1 c label I L1 Hl). }
     destruct Ho as (Hin & Hn & Hlab).
     assert (rule_good r) as G by (eapply rule_good_of_strategy; eauto).
     destruct (rule_children r) as [[|ic cs']|] eqn:Ec; try (apply fail_ok; auto).
     destruct ends as [|il rest']; [apply fail_ok; auto|].
     assert (leq s1 (add_rule T mode F s1 start (il :: rest') r)) as L2.
-    { apply add_rule_ok; auto. }
+    { apply add_rule_ok; auto. apply (handed_kids_nonempty sid c); auto.
+      intros HC. left. apply (Hsub HC). left; reflexivity. }
     set (s2 := add_rule T mode F s1 start (il :: rest') r) in *.
-    assert (Inv s2) as I2 by (apply (leq_inv _ _ _ _ L2)).
-    assert (leq s2 (emit (EvQNotInf start) s2)) as L3 by (apply emit_ok; simpl; auto).
+    assert (Inv s2) as I2 by (apply (leq_inv _ _ L2)).
+    assert (leq s2 (emit (EvQNotInf start) s2)) as L3 by (apply emit_neutral_ok; simpl; auto).
     eapply leq_trans; [exact L2|]. eapply leq_trans; [exact L3|].
-    apply HR; [apply (leq_inv _ _ _ _ L3)|].
-    apply (RL_leq T C s2 _ ic il I2 L3). apply (RL_leq T C s1 s2 ic il I1 L2).
+    apply HR; [|apply (leq_inv _ _ L3)|].
+    { intros HC x Hx. apply (Hall HC). apply in_app_or in Hx as [Hx|Hx];
+        [apply (In_skipn x (S i) all Hx)|apply (In_firstn x (S i) all Hx)]. }
+    apply (RL_leq s2 _ ic il I2 L3). apply (RL_leq s1 s2 ic il I1 L2).
     intros Hr. destruct (Hlab Hr) as ((A & cs & B & D & E) & _). rewrite Ec in B. injection B as <-.
     simpl in D. inversion D; auto.
 Qed.
 
 Lemma inferral_expand_ok F n : rec_spec (inferral_expand T mode F n).
 Proof.
-  induction n as [|n IH]; intros s c label sids skip I Hl; simpl.
+  induction n as [|n IH]; intros s c label sids skip Hsub I Hl; simpl.
   - apply out_of_fuel_ok; auto.
   - destruct (mem label (infexp s)); [apply leq_refl; auto|].
     assert (leq s (add_infexp label s)) as L0 by (apply add_infexp_ok; auto).
-    set (s0 := add_infexp label s) in *. assert (Inv s0) as I0 by (apply (leq_inv _ _ _ _ L0)).
+    set (s0 := add_infexp label s) in *. assert (Inv s0) as I0 by (apply (leq_inv _ _ L0)).
     assert (leq s0 (inf_loop T mode F (inferral_expand T mode F n) s0 c label sids 0 sids skip)) as L1.
-    { apply inf_loop_ok; auto. apply (RL_leq T C s s0 c label I L0 Hl). }
+    { apply inf_loop_ok; auto. apply (RL_leq s s0 c label I L0 Hl). }
     eapply leq_trans; [exact L0|]. eapply leq_trans; [exact L1|].
-    apply emit_ok; [apply (leq_inv _ _ _ _ L1)|simpl; auto].
+    apply emit_neutral_ok; [reflexivity|apply (leq_inv _ _ L1)|simpl; auto].
 Qed.
 
 (* -------------------------------------------------------------- _expand *)
-Lemma expand_ok F s c label sids inferral : Inv s -> RL s c label ->
+Lemma expand_ok F s c label sids inferral : (C -> incl sids pack) -> Inv s -> RL s c label ->
   leq s (expand T mode F s c label sids inferral).
 Proof.
-  intros I Hl. unfold expand. destruct inferral; [apply inferral_expand_ok; auto|].
+  intros Hsub I Hl. unfold expand. destruct inferral; [apply inferral_expand_ok; auto|].
   apply (fold_sids_ok _ s sids); auto; [|apply incl_refl|apply leq_refl; auto].
-  intros s1 sid _ L1 I1. apply expand_with_ok; auto. apply add_rule_ok.
-  apply (RL_leq T C s s1 c label I L1 Hl).
+  intros s1 sid Hsid L1 I1. apply expand_with_ok; auto.
+  - apply add_rule_ok.
+  - apply handed_kids_nonempty. intros HC. left. apply (Hsub HC). exact Hsid.
+  - apply (RL_leq s s1 c label I L1 Hl).
 Qed.
 
 Definition last_ok (s : st) (last : option (Z * Z)) : Prop :=
   forall l c, last = Some (l, c) -> RL s c l.
 
-Lemma packet_step_ok F dl ev s last p s' last' : Inv s -> last_ok s last ->
+Lemma packet_step_ok F dl ev s last p s' last' : (C -> incl (p_sids p) pack) -> Inv s -> last_ok s last ->
   packet_step T mode F dl ev (s, last) p = (s', last') -> leq s s' /\ last_ok s' last'.
 Proof.
-  intros I Hlast. unfold packet_step. destruct dl.
+  intros Hsub I Hlast. unfold packet_step. destruct dl.
   - destruct (get_class_l T s (p_label p)) as [s1 c] eqn:E1.
-    destruct (get_class_l_ok T C _ _ _ _ I E1) as (L1 & Hl1).
+    destruct (get_class_l_ok _ _ _ _ I E1) as (L1 & Hl1).
     assert (leq s1 (expand T mode F s1 c (p_label p) (p_sids p) (p_inferral p))) as L2
-      by (apply expand_ok; auto; apply (leq_inv _ _ _ _ L1)).
+      by (apply expand_ok; auto; apply (leq_inv _ _ L1)).
     intros [= <- <-]. split; [eapply leq_trans; eauto|].
-    intros l0 c0 E. apply (RL_leq T C s _ c0 l0 I); [eapply leq_trans; eauto|eapply Hlast; eauto].
+    intros l0 c0 E. apply (RL_leq s _ c0 l0 I); [eapply leq_trans; eauto|eapply Hlast; eauto].
   - set (g := match last with
               | Some (ll, lc) => if p_label p =? ll then (s, lc) else get_class_l T s (p_label p)
               | None => get_class_l T s (p_label p) end).
@@ -756,36 +492,40 @@ Proof.
       destruct (p_label p =? ll) eqn:El; [|apply get_class_l_ok; auto].
       intros [= <- <-]. apply Z.eqb_eq in El. split; [apply leq_refl; auto|]. rewrite El. eapply Hlast; eauto. }
     destruct g as [s1 c]. destruct (Hg s1 c eq_refl) as (L1 & Hl1).
-    assert (Inv s1) as I1 by (apply (leq_inv _ _ _ _ L1)).
+    assert (Inv s1) as I1 by (apply (leq_inv _ _ L1)).
     set (h := if ev then (s1, true) else let '(s2, a) := pop_answer s1 in (s2, negb a)).
     assert (forall s2 go, h = (s2, go) -> leq s1 s2) as Hh.
     { intros s2 go. unfold h. destruct ev; [intros [= <- <-]; apply leq_refl; auto|].
       destruct (pop_answer s1) as [s2' a] eqn:E2. intros [= <- <-]. eapply pop_answer_ok; eauto. }
     destruct h as [s2 go]. pose proof (Hh s2 go eq_refl) as L2.
-    assert (Inv s2) as I2 by (apply (leq_inv _ _ _ _ L2)).
-    assert (RL s2 c (p_label p)) as Hl2 by (apply (RL_leq T C s1 s2 c _ I1 L2 Hl1)).
+    assert (Inv s2) as I2 by (apply (leq_inv _ _ L2)).
+    assert (RL s2 c (p_label p)) as Hl2 by (apply (RL_leq s1 s2 c _ I1 L2 Hl1)).
     set (s3 := if go then expand T mode F s2 c (p_label p) (p_sids p) (p_inferral p) else s2).
     assert (leq s2 s3) as L3.
     { unfold s3. destruct go; [apply expand_ok; auto|apply leq_refl; auto]. }
     intros [= <- <-]. split; [eapply leq_trans; [exact L1|eapply leq_trans; eauto]|].
-    intros l0 c0 [= <- <-]. apply (RL_leq T C s2 s3 c _ I2 L3 Hl2).
+    intros l0 c0 [= <- <-]. apply (RL_leq s2 s3 c _ I2 L3 Hl2).
 Qed.
 
-Lemma fold_packets_ok F dl ev ps : forall s last, Inv s -> last_ok s last ->
+Notation packets_in := (Contracts.packets_in pack).
+
+Lemma fold_packets_ok F dl ev ps : (C -> packets_in ps) -> forall s last, Inv s -> last_ok s last ->
   let r := fold_left (packet_step T mode F dl ev) ps (s, last) in
   leq s (fst r) /\ last_ok (fst r) (snd r).
 Proof.
-  induction ps as [|p t IH]; intros s last I Hlast; cbn [fold_left].
+  induction ps as [|p t IH]; intros Hps s last I Hlast; cbn [fold_left].
   - simpl. split; [apply leq_refl; auto|auto].
   - destruct (packet_step T mode F dl ev (s, last) p) as [s1 last1] eqn:E1.
-    destruct (packet_step_ok _ _ _ _ _ _ _ _ I Hlast E1) as (L1 & Hl1).
-    destruct (IH s1 last1 (leq_inv _ _ _ _ L1) Hl1) as (L2 & Hl2).
+    assert (C -> incl (p_sids p) pack) as Hp by (intros HC; specialize (Hps HC); inversion Hps; auto).
+    assert (C -> packets_in t) as Ht by (intros HC; specialize (Hps HC); inversion Hps; auto).
+    destruct (packet_step_ok _ _ _ _ _ _ _ _ Hp I Hlast E1) as (L1 & Hl1).
+    destruct (IH Ht s1 last1 (leq_inv _ _ L1) Hl1) as (L2 & Hl2).
     split; auto. eapply leq_trans; eauto.
 Qed.
 
-Lemma run_packets_ok F dl ev ps s last : Inv s -> last_ok s last ->
+Lemma run_packets_ok F dl ev ps s last : (C -> packets_in ps) -> Inv s -> last_ok s last ->
   leq s (run_packets T mode F dl ev s last ps).
-Proof. intros I Hl. apply (fold_packets_ok F dl ev ps s last I Hl). Qed.
+Proof. intros Hps I Hl. apply (fold_packets_ok F dl ev ps Hps s last I Hl). Qed.
 
 Lemma Inv_init ans : Inv (init_state ans).
 Proof.
@@ -793,22 +533,23 @@ Proof.
   - apply WF_init.
   - intros _. apply EmptyOK_init.
   - constructor.
+  - exact G_init.
 Qed.
 
 Lemma empty_start_ok F s start sl : Inv s -> RL s start sl -> leq s (empty_start T mode F s start sl).
 Proof.
   intros I Hl. unfold empty_start.
   destruct (is_empty_cl T s start (Some sl)) as [s1 e] eqn:E1.
-  destruct (is_empty_cl_ok T C s start (Some sl) s1 e I) as (L1 & _); auto. { intros l0 [= <-]; auto. }
-  assert (Inv s1) as I1 by (apply (leq_inv _ _ _ _ L1)).
+  destruct (is_empty_cl_ok s start (Some sl) s1 e I) as (L1 & _); auto. { intros l0 [= <-]; auto. }
+  assert (Inv s1) as I1 by (apply (leq_inv _ _ L1)).
   destruct e; auto.
-  assert (leq s1 (emit (EvQStop sl) s1)) as L2 by (apply emit_ok; simpl; auto).
-  set (s2 := emit (EvQStop sl) s1) in *. assert (Inv s2) as I2 by (apply (leq_inv _ _ _ _ L2)).
+  assert (leq s1 (emit (EvQStop sl) s1)) as L2 by (apply emit_neutral_ok; simpl; auto).
+  set (s2 := emit (EvQStop sl) s1) in *. assert (Inv s2) as I2 by (apply (leq_inv _ _ L2)).
   eapply leq_trans; [exact L1|]. eapply leq_trans; [exact L2|].
   destruct (oracle start) eqn:Eo; [|apply fail_ok; auto].
-  apply add_rule_ok; auto; [left; simpl; auto|].
+  apply add_rule_ok; auto; [left; simpl; auto|intros _ _ k []|].
   intros Hr. split; [split; simpl|left; reflexivity].
-  - apply (RL_leq T C s1 s2 start sl I1 L2 (RL_leq T C s s1 start sl I L1 Hl) Hr).
+  - apply (RL_leq s1 s2 start sl I1 L2 (RL_leq s s1 start sl I L1 Hl) Hr).
   - exists []. csplit; auto. constructor.
 Qed.
 
@@ -816,41 +557,78 @@ Lemma searcher_init_ok F ans start : Inv (searcher_init T mode F ans start).
 Proof.
   unfold searcher_init.
   destruct (get_label_c T (init_state ans) start) as [s1 sl] eqn:E1.
-  destruct (get_label_c_ok T C _ _ _ _ (Inv_init ans) E1) as (L1 & Hl1).
-  assert (Inv s1) as I1 by (apply (leq_inv _ _ _ _ L1)).
-  assert (leq s1 (emit (EvQAdd sl) s1)) as L2a by (apply emit_ok; simpl; auto).
+  destruct (get_label_c_ok _ _ _ _ (Inv_init ans) E1) as (L1 & Hl1).
+  assert (Inv s1) as I1 by (apply (leq_inv _ _ L1)).
+  assert (leq s1 (emit (EvQAdd sl) s1)) as L2a by (apply emit_neutral_ok; simpl; auto).
   assert (leq (emit (EvQAdd sl) s1) (empty_start T mode F (emit (EvQAdd sl) s1) start sl)) as L2b.
-  { apply empty_start_ok; [apply (leq_inv _ _ _ _ L2a)|apply (RL_leq T C s1 _ start sl I1 L2a Hl1)]. }
+  { apply empty_start_ok; [apply (leq_inv _ _ L2a)|apply (RL_leq s1 _ start sl I1 L2a Hl1)]. }
   assert (leq s1 (empty_start T mode F (emit (EvQAdd sl) s1) start sl)) as L2 by (eapply leq_trans; eauto).
   set (s2 := empty_start T mode F (emit (EvQAdd sl) s1) start sl) in *.
-  assert (Inv s2) as I2 by (apply (leq_inv _ _ _ _ L2)).
-  assert (RL s2 start sl) as Hl2 by (apply (RL_leq T C s1 s2 start sl I1 L2 Hl1)).
+  assert (Inv s2) as I2 by (apply (leq_inv _ _ L2)).
+  assert (RL s2 start sl) as Hl2 by (apply (RL_leq s1 s2 start sl I1 L2 Hl1)).
   assert (leq s2 (try_verify T (add_rule T mode F) s2 start sl)) as L3
     by (apply try_verify_ok; auto; apply add_rule_ok).
   set (s3 := try_verify T (add_rule T mode F) s2 start sl) in *.
-  assert (Inv s3) as I3 by (apply (leq_inv _ _ _ _ L3)).
+  assert (Inv s3) as I3 by (apply (leq_inv _ _ L3)).
   destruct (has_sym T); auto.
-  apply (leq_inv _ _ s3). apply symmetry_expand_ok; auto. apply add_rule_ok.
-  apply (RL_leq T C s2 s3 start sl I2 L3 Hl2).
+  apply (leq_inv s3). apply symmetry_expand_ok; auto. apply add_rule_ok.
+  apply (RL_leq s2 s3 start sl I2 L3 Hl2).
 Qed.
 
-(* THE invariant of the whole run: any table, packets, answers, fuel, mode *)
-Theorem run_search_inv F dl ev ans start ps : Inv (run_search T mode F dl ev ans start ps).
+(* THE invariant of the whole run: any table, packets (of strategies of the pack where the contracts are
+   switched on), answers, fuel, mode *)
+Theorem run_search_inv F dl ev ans start ps : (C -> packets_in ps) -> Inv (run_search T mode F dl ev ans start ps).
 Proof.
-  unfold run_search. apply (leq_inv _ _ (searcher_init T mode F ans start)).
-  apply run_packets_ok; [apply searcher_init_ok|intros l c; discriminate].
+  intros Hps. unfold run_search. apply (leq_inv (searcher_init T mode F ans start)).
+  apply run_packets_ok; [exact Hps|apply searcher_init_ok|intros l c; discriminate].
 Qed.
 
 (* the run on more packets continues the run on fewer: the database only grows *)
-Theorem run_search_app F dl ev ans start ps more :
+Theorem run_search_app F dl ev ans start ps more : (C -> packets_in (ps ++ more)) ->
   leq (run_search T mode F dl ev ans start ps) (run_search T mode F dl ev ans start (ps ++ more)).
 Proof.
-  unfold run_search, run_packets. rewrite fold_left_app.
+  intros Hps. unfold run_search, run_packets. rewrite fold_left_app.
+  assert (C -> packets_in ps) as Hp1 by (intros HC; apply (proj1 (Forall_app _ ps more) (Hps HC))).
+  assert (C -> packets_in more) as Hp2 by (intros HC; apply (proj1 (Forall_app _ ps more) (Hps HC))).
   set (s0 := searcher_init T mode F ans start).
-  destruct (fold_packets_ok F dl ev ps s0 None (searcher_init_ok F ans start)) as (L1 & Hl1).
+  destruct (fold_packets_ok F dl ev ps Hp1 s0 None (searcher_init_ok F ans start)) as (L1 & Hl1).
   { intros l c; discriminate. }
   destruct (fold_left (packet_step T mode F dl ev) ps (s0, None)) as [s1 last1]. simpl in *.
-  apply (fold_packets_ok F dl ev more s1 last1 (leq_inv _ _ _ _ L1) Hl1).
+  apply (fold_packets_ok F dl ev more Hp2 s1 last1 (leq_inv _ _ L1) Hl1).
 Qed.
 
 End Proofs.
+
+(* ------------------------------------------------------------------------------------------
+   The plain invariant (ghost predicate Gtriv): what C04's per-event theorems and C17 use.  With
+   C := False there is no contract and no condition on the packets. *)
+Section Plain.
+Variable T : table.
+Variable mode : Z.
+Variable C : Prop.
+Variable pack : list Z.
+Hypothesis pe_contract : C -> Contracts.pe_contract T pack. (* in-section *)
+Hypothesis sym_contract : C -> Contracts.sym_contract T. (* in-section *)
+
+Notation Inv0 := (Inv T C Gtriv).
+Notation leq0 := (leq T C Gtriv).
+
+Lemma Gtriv_forest : C -> (mode =? 0) = false -> forall (start : Z) (ends : list Z) (sid parent : Z)
+  (d : @db Z) (r e : list (Z * list Z)) (tr : list event), Gtriv d r e tr -> Gtriv d r e (EvAdd start ends sid parent :: tr).
+Proof. intros; exact Logic.I. Qed.
+Lemma Gtriv_base : C -> (mode =? 0) = true -> forall (s : st) (sym : bool) (start : Z) (ends : list Z) (r : rule),
+  Inv0 s -> rule_good T r -> (running s = true -> labelled T (cdb s) sym start ends r) ->
+  Gs Gtriv s -> Gs Gtriv (base_add T (emit (EvAdd start ends (r_sid r) (r_parent r)) s) start ends r).
+Proof. intros; exact Logic.I. Qed.
+Lemma Gtriv_init : C -> Gtriv init [] [] [].
+Proof. intros; exact Logic.I. Qed.
+
+Definition run_search_inv0 :=
+  run_search_inv T mode C pack Gtriv (Gtriv_frame T C) (Gtriv_skip C) Gtriv_forest Gtriv_base Gtriv_init pe_contract sym_contract.
+Definition run_search_app0 :=
+  run_search_app T mode C pack Gtriv (Gtriv_frame T C) (Gtriv_skip C) Gtriv_forest Gtriv_base Gtriv_init pe_contract sym_contract.
+Definition packet_step_ok0 :=
+  packet_step_ok T mode C pack Gtriv (Gtriv_frame T C) (Gtriv_skip C) Gtriv_forest Gtriv_base pe_contract sym_contract.
+Definition searcher_init_ok0 :=
+  searcher_init_ok T mode C pack Gtriv (Gtriv_frame T C) (Gtriv_skip C) Gtriv_forest Gtriv_base Gtriv_init pe_contract sym_contract.
+End Plain.
